@@ -36,7 +36,14 @@ def tags_of(items):
     return [t for t, _ in annot.walk(items) if t["t"] == "tag"]
 
 
+def path_terms(t):
+    """Case-folded terms of the tag's schema path; a tag the schema does not know has none."""
+    return [p.casefold() for p in t["node"].split("/")] if t.get("node") else []
+
+
 def short_form(t, oracle):
+    if not t.get("node"):
+        return t["raw"].casefold()          # a tag the schema does not know: its short form is what was written
     node = oracle.by_path[t["node"].casefold()]
     return (node.name + t["suffix"]).casefold()
 
@@ -45,7 +52,7 @@ def term_matches(items, kind, text, oracle):
     text = text.casefold()
     for t in tags_of(items):
         if kind == "bare":
-            if text in [p.casefold() for p in t["node"].split("/")]:
+            if text in path_terms(t):
                 return True
         elif kind == "quoted":
             if short_form(t, oracle) == text:
@@ -60,7 +67,7 @@ def matching_tags(items, kind, text, oracle):
     text = text.casefold()
     out = []
     for t in tags_of(items):
-        if kind == "bare" and text in [p.casefold() for p in t["node"].split("/")]:
+        if kind == "bare" and text in path_terms(t):
             out.append(id(t))
         elif kind == "quoted" and short_form(t, oracle) == text:
             out.append(id(t))
@@ -72,7 +79,7 @@ def matching_tags(items, kind, text, oracle):
 def tag_matches(t, kind, text, oracle):
     text = text.casefold()
     if kind == "bare":
-        return text in [p.casefold() for p in t["node"].split("/")]
+        return text in path_terms(t)
     if kind == "quoted":
         return short_form(t, oracle) == text
     return short_form(t, oracle).startswith(text)
@@ -122,6 +129,13 @@ WORD_OK = set("_-abcdefghijklmnopqrstuvwxyzABCDEFGHIJKLMNOPQRSTUVWXYZ0123456789/
 def term_pool(items, oracle, rng):
     pool = []
     for t in tags_of(items):
+        if not t.get("node"):
+            # the written levels of a tag the schema does not know are not terms of any schema path
+            for comp in t["raw"].split("/"):
+                pool.append(("bare", comp))
+            pool.append(("quoted", t["raw"]))
+            pool.append(("star", t["raw"][:rng.randrange(2, max(3, len(t["raw"])))]))
+            continue
         parts = t["node"].split("/")
         pool.append(("bare", rng.choice(parts)))
         sf = oracle.by_path[t["node"].casefold()].name + t["suffix"]
@@ -414,6 +428,15 @@ def run_shard(shard, rec):
                 sibs = rng.choice(parents)
                 if sibs:
                     sibs.insert(rng.randrange(0, len(sibs) + 1), _copy.deepcopy(rng.choice(sibs)))
+        if rng.random() < 0.3:
+            # ... nor a known one: tags the schema cannot place (their levels may be schema words)
+            for _ in range(rng.randrange(1, 3)):
+                w = rng.choice(["Notatag", "Foo/Bar", "Foo/Green", "Zzq/Event/Item", "Qqword/Red"])
+                parents = [items] + [g["kids"] for g, _p in annot.walk(items) if g["t"] == "group"]
+                sibs = rng.choice(parents)
+                sibs.insert(rng.randrange(0, len(sibs) + 1),
+                            {"t": "tag", "name": w, "suffix": "", "node": None, "role": "raw", "raw": w})
+            rec.count("annotation-kind", "with-unidentified-tag")
         text = annot.render(items, rng)
         perm_text = annot.render(annot.permute(items, rng), rng)
         pool = term_pool(items, oracle, rng)
@@ -476,3 +499,9 @@ def replay(case, rec):
         except ValueError:
             pass
     print("replay results:", res)
+
+
+def finalize(merged, tier, inconclusive):
+    got = merged.hist.get("annotation-kind", {}).get("with-unidentified-tag", 0)
+    if got < 40:
+        inconclusive.append(f"annotations holding a tag the schema does not know: {got} (< 40)")
